@@ -258,6 +258,21 @@ fn run_dom_conc(out: &mut Out, n: usize, uv: bool, threads: &[Vec<(DState, usize
         probes.iter().map(|(s, d, v)| format!("{} {} {}", d, v, dstate_tok(s))).collect::<Vec<_>>().join(" ; "));
     out.case_tagged(&case, &fin.join(" ; "), &format!("concurrent threads{}", threads.len()));
 }
+/// order independence on the implementation itself (C18): the same multiset of states is recorded, single-threaded, in two
+/// different orders on two fresh checkers; the same probes afterwards must get the same answers, thresholds included
+fn run_dom_perm(out: &mut Out, n: usize, uv: bool, phase: &[(DState, usize, isize)], order_b: &[usize], probes: &[(DState, usize, isize)]) {
+    let run = |order: &mut dyn Iterator<Item = usize>| -> Vec<String> {
+        let c = SimpleDominanceChecker::new(Rule { use_value: uv, slow: 0 }, n);
+        for i in order { let (s, d, v) = &phase[i]; c.is_dominated_or_insert(Arc::new(s.clone()), *d, *v); }
+        probes.iter().map(|(s, d, v)| res_tok(c.is_dominated_or_insert(Arc::new(s.clone()), *d, *v))).collect()
+    };
+    let a = run(&mut (0..phase.len()));
+    let b = run(&mut order_b.iter().copied());
+    let case = format!("perm {} {} ; {} | {}", n, uv as u8,
+        phase.iter().map(|(s, d, v)| format!("{} {} {}", d, v, dstate_tok(s))).collect::<Vec<_>>().join(" ; "),
+        probes.iter().map(|(s, d, v)| format!("{} {} {}", d, v, dstate_tok(s))).collect::<Vec<_>>().join(" ; "));
+    out.case_tagged(&case, &format!("{} / {}", a.join(" ; "), b.join(" ; ")), if uv { "permuted with_value" } else { "permuted" });
+}
 pub fn run_dom(a: &Args) {
     let mut out = Out::new(&a.out, "dom");
     if let Some(r) = &a.replay { replay_dom(&mut out, r); out.finish(); return; }
@@ -307,6 +322,19 @@ pub fn run_dom(a: &Args) {
         let probes: Vec<(DState, usize, isize)> = (0..12).map(|_| mk(&mut rng)).collect();
         run_dom_conc(&mut out, 1, uv, &threads, &probes, 400);
     }
+    // permuted recording orders (single-threaded): several incomparable dominators of the same probe, in both orders
+    let nperm = if a.thorough { 4000 } else { 400 };
+    for _ in 0..nperm {
+        let uv = rng.chance(3, 4);
+        let nkeys = rng.range(1, 2);
+        let mk = |rng: &mut Rng| (DState { key: Some(rng.range(0, nkeys - 1)), coords: vec![rng.range(0, 4) as isize, rng.range(0, 4) as isize] }, rng.range(0, 1) as usize, rng.range(0, 9) as isize);
+        let phase: Vec<(DState, usize, isize)> = (0..rng.range(2, 8)).map(|_| mk(&mut rng)).collect();
+        let mut order: Vec<usize> = (0..phase.len()).collect();
+        if rng.chance(1, 2) { order.reverse(); } else { for i in (1..order.len()).rev() { let j = rng.below(i as u64 + 1) as usize; order.swap(i, j); } }
+        // probes weak in every coordinate and in value: dominated by several recorded states
+        let probes: Vec<(DState, usize, isize)> = (0..6).map(|_| (DState { key: Some(rng.range(0, nkeys - 1)), coords: vec![rng.range(0, 2) as isize, rng.range(0, 2) as isize] }, rng.range(0, 1) as usize, rng.range(0, 3) as isize)).collect();
+        run_dom_perm(&mut out, 1, uv, &phase, &order, &probes);
+    }
     // fresh-key races: every thread brings the *first* state of each key at the same moment; the states
     // of different threads are incomparable, so all of them must be recorded and each probe below is
     // dominated by exactly one of them
@@ -340,6 +368,15 @@ fn replay_dom(out: &mut Out, r: &str) {
             if x[0] == "l" { DOp::ClearLayer(x[1].parse().unwrap()) } else { let (s, d, v) = parse_q(&x[1..]); DOp::Q(s, d, v) }
         }).collect();
         run_dom_seq(out, n, uv, &ops, "replay");
+    } else if t[0] == "perm" {
+        // the second order is not part of the case text: replay tries the reverse and every rotation
+        let parts: Vec<&str> = body.split('|').collect();
+        let phase: Vec<(DState, usize, isize)> = parts[0].split(';').filter(|s| !s.trim().is_empty()).map(|s| parse_q(&s.split_whitespace().collect::<Vec<_>>())).collect();
+        let probes: Vec<(DState, usize, isize)> = parts[1].split(';').filter(|s| !s.trim().is_empty()).map(|s| parse_q(&s.split_whitespace().collect::<Vec<_>>())).collect();
+        let k = phase.len();
+        let rev: Vec<usize> = (0..k).rev().collect();
+        run_dom_perm(out, n, uv, &phase, &rev, &probes);
+        for r in 1..k { let o: Vec<usize> = (0..k).map(|i| (i + r) % k).collect(); run_dom_perm(out, n, uv, &phase, &o, &probes); let o2: Vec<usize> = o.iter().rev().copied().collect(); run_dom_perm(out, n, uv, &phase, &o2, &probes); }
     } else {
         let parts: Vec<&str> = body.split('|').collect();
         let threads: Vec<Vec<(DState, usize, isize)>> = parts[0].split('/').map(|th| th.split(';').filter(|s| !s.trim().is_empty()).map(|s| parse_q(&s.split_whitespace().collect::<Vec<_>>())).collect()).collect();
